@@ -230,6 +230,10 @@ def conv_gen(g):
         g = {"kind": "qpages", "ps": list(g["ps"]), "oc": g["kind"] == "qcrawled"}
     elif g["kind"] in ("qoutlinks", "qinlinks"):
         g = {"kind": "qlinks", "ps": list(g["ps"]), "out": g["kind"] == "qoutlinks"}
+    elif g["kind"] == "qchildren":
+        g = {"kind": "qchildren", "id": g["id"], "ps": list(g["ps"])}
+    elif g["kind"] == "qpagelinks":
+        g = {"kind": "qpagelinks", "id": g["id"], "ps": list(g["ps"])}
     elif g["kind"] == "qnet":
         g = {"kind": "qnet", "out": bool(g["out"]), "auto": bool(g["auto"])}
     elif g["kind"].startswith("q"):
